@@ -76,6 +76,7 @@ type ChanObj struct {
 
 type MapIter struct {
 	Keys, Vals []Value
+	Pres       []*Term // presence condition per entry (maps with symbolic keys)
 	Pos        int
 	IsStr      bool
 	Runes      []*Term
